@@ -14,7 +14,7 @@ from koala.graph_utils import make_dual, vertices_to_polygon, remove_trailing_ed
 
 DRIVERS = ("c13",)
 MODEL_TARGETS = ["Model/Lattice.vo", "Model/Dual.vo", "Model/Truncate.vo"]
-TARGETS = ["Proofs/DualFacts.vo", "Proofs/TruncateFacts.vo"]
+TARGETS = ["Proofs/DualFacts.vo", "Proofs/TruncateFacts.vo", "Proofs/TruncateDegrees.vo"]
 LEVEL = "proof"
 TRUST = [
     "hand-written Gallina models coq/Model/Dual.v (make_dual over Q) and coq/Model/Truncate.v (vertices_to_polygon, statement by statement, in integer units of 1/(3*scale)): "
@@ -448,6 +448,15 @@ def k_dual(m, D, res):
     return None
 
 
+def dual_generic(P, E):
+    """no centre difference along a dual edge is within 1e-9 of a half-integer (np.round threshold)"""
+    if len(E) == 0:
+        return True
+    E = np.array(E, dtype=int).reshape(-1, 2)
+    diff = P[E[:, 0]] - P[E[:, 1]]
+    return not bool(np.any(np.abs(diff - np.floor(diff) - 0.5) < 1e-9))
+
+
 def k_trunc(m, out_lat, S):
     if "err" in m:
         return f"model returned {m['err']}, implementation returned a lattice"
@@ -620,6 +629,9 @@ def evaluate(ctx, cases, label):
             raise RuntimeError(f"driver error {o['error']} on {c}")
         fam = c["lattice"]["family"] + ("+" + "+".join(s[0] for s in c["pre"]) if c.get("pre") else "")
         lat = mk(pos, edges, cr)
+        hs = res.extra.setdefault("size_histogram", {})
+        b = "V<=10" if len(pos) <= 10 else "V<=50" if len(pos) <= 50 else "V<=200" if len(pos) <= 200 else "V>200"
+        hs[b] = hs.get(b, 0) + 1
         try:
             nP = lat.n_plaquettes
             degenerate_area = any(abs(p.center[0]) == np.inf or np.isnan(p.center).any() for p in lat.plaquettes)
@@ -644,8 +656,12 @@ def evaluate(ctx, cases, label):
                         res.count(fam + "/dual-guard")
                         bump("dual_guard_raised")
                         if m.get("err") != "DUPLICATE":
-                            # ties in np.round can make the guard fire on one side only: only report when generic
-                            ctx.k_mismatch(f"{label}: implementation's duplicate-edge guard fired, model returned a dual", one) if False else res.skip("dual guard fired on the implementation only (half-integer tie)")
+                            # ties in np.round can make the guard fire on one side only: report only when no centre
+                            # difference is within 1e-9 of a half-integer
+                            if "pos" in m and dual_generic(np.array([[float(x), float(y)] for x, y in m["pos"]]).reshape(-1, 2), m["edges"]):
+                                ctx.k_mismatch(f"{label}: implementation's duplicate-edge guard fired, the model returned a dual", one)
+                            else:
+                                res.skip("dual guard fired on the implementation only (half-integer tie)")
                         continue
                     res.count(fam + "/dual")
                     res.violation("dual:raised", f"make_dual raised {type(e).__name__}: {e}", one)
@@ -662,7 +678,11 @@ def evaluate(ctx, cases, label):
                     bump("dual_census_ok")
                 res.traces += 1
                 if "err" in m and m["err"] == "DUPLICATE":
-                    res.skip("dual guard fired on the model only (half-integer tie)")
+                    dpos, dedges, _ = arr(D)
+                    if dual_generic(dpos, [tuple(r) for r in dedges]):
+                        ctx.k_mismatch(f"{label}: the model's duplicate-edge guard fired, the implementation returned a dual", one)
+                    else:
+                        res.skip("dual guard fired on the model only (half-integer tie)")
                 else:
                     diff = k_dual(m, D, res)
                     if diff:
